@@ -5,7 +5,8 @@ PROPERTY = "C15"
 
 
 def tasks(tier):
-    return contract_tasks("contracts.adapters", "C15", tier=tier) + other_tasks("contracts.adapters_bounded", "C15", "bounded")
+    return (contract_tasks("contracts.adapters", "C15", tier=tier) + contract_tasks("contracts.proxies", "C15", tier=tier)
+            + other_tasks("contracts.adapters_bounded", "C15", "bounded"))
 
 
 TRUSTED_BASE = TRUSTED_CORE
@@ -14,9 +15,11 @@ ASSUMPTIONS = [
     "version numbers are int lists of arbitrary length (the deductive contract); parsing 'a.b.c' strings (split / map int) and LocalProxy.init's "
     "signature inspection (inspect, forced old API) are checked by bounded stand-ins with stated bounds",
     "warnings.warn is recorded as a ghost event",
+    "LocalProxy.init: mosaik_api_v3.check_api_compliance(sim) is True iff init accepts time_resolution AND step accepts max_advance (assumed contract "
+    "of the dependency, read off its source); the simulator's reply to init is arbitrary; extract_version yields some int list of length >= 1",
 ]
 NOT_COVERED = ["'it sees the same scheduling and data as a current-version simulator': follows from the adapters forwarding every other request unchanged (proved) -- not an end-to-end statement", "the default type 'time-based' for a missing type is set in SimRunner.__init__ (not under contract; covered by the bounded end-to-end harness)"]
-LEVEL_TEXT = 'V3ToV2Adapter.send: a step request is forwarded without max_advance, EVERY other request unchanged, reply passed back; V2ToV1Adapter.send: setup_done is answered locally and not forwarded, every other request unchanged; init_and_get_adapter: ScenarioError IFF init failed or version >= 4 or the configured api_version differs, otherwise exactly the adapters required by the version (< 2.2: both, < 3: V3ToV2 only, else none), warning iff adapted without explicit version -- for version lists of arbitrary length. String parsing and LocalProxy.init by bounded stand-ins. V3ToV2Adapter.meta keeps a declared type and defaults only a missing one; SimRunner\'s request wrappers send exactly the documented request shapes.'
+LEVEL_TEXT = 'V3ToV2Adapter.send: a step request is forwarded without max_advance, EVERY other request unchanged, reply passed back; V2ToV1Adapter.send: setup_done is answered locally and not forwarded, every other request unchanged; init_and_get_adapter: ScenarioError IFF init failed or version >= 4 or the configured api_version differs, otherwise exactly the adapters required by the version (< 2.2: both, < 3: V3ToV2 only, else none), warning iff adapted without explicit version -- for version lists of arbitrary length. LocalProxy.init (contract): exactly one init request, time_resolution never passed to an init that cannot take it and passed to a v3-compliant simulator, ScenarioError IFF a v3 signature is missing and the announced version is >= 3 (check_api_compliance assumed per its source). String parsing and the end-to-end behaviour by bounded stand-ins; every adapter / LocalProxy contract also has a native small-scope search over all request kinds resp. signature combinations. V3ToV2Adapter.meta keeps a declared type and defaults only a missing one; SimRunner\'s request wrappers send exactly the documented request shapes.'
 DESIGN_REF = "DESIGN.md section 8 (C15)"
 LEVEL_NOTE = 'Function-level proofs for the adapters and the version decision; bounded stand-ins for parsing / signature inspection (coverage.bounded). Trusted: pyvc encoder, z3/cvc5.'
 TECHNIQUE = "contract-based deductive verification (adapters' send, version logic of init_and_get_adapter); bounded stand-ins for string parsing and LocalProxy.init"
